@@ -4,21 +4,27 @@ import KrroodVerif.Model.SqlTr
 
 Property theorems only (about `translate`, `execSql`, `evalMem` of `Model/SqlTr.lean`).
 
-Full statement (NOT provable of the code as it is — see the counter-examples below):
+Full statement (no counter-example is known any more after the fixes for F-C07-1 … F-C07-5, but only the fragment below is proved):
   `translate S q = .ok s → toSet (execSql S s db) = ids (evalMem S q db)`, `the` fails in both worlds or in neither,
   and every query the translator cannot express yields `Fail.rejected _` (an `EQLTranslationError`).
 
 Proved here:
 * `C07_preserves_partial` — the full statement on the fragment *single selected variable; atoms compare attribute
   chains (any number of relationship hops) with literals / with each other / by membership in a literal list / by
-  truthiness; arbitrary and_/or_ nesting*, over every database in which the compared chains evaluate to numbers on every
-  candidate (= no NULL on compared columns, no NULL relationship hop).  Unbounded in nesting depth, chain length,
-  database size.  (`C07_the_partial`: the same for `the(...)`.)
+  truthiness; arbitrary and_/or_ nesting*, over every database in which the compared chains evaluate (no NULL
+  relationship hop) to a scalar on every candidate.  Since the fix for F-C07-2 **NULL is allowed on the compared
+  columns** for `==`, `!=`, `in_` and truthiness (`Good`); only chains compared by `< <= > >=` must be numbers (in memory
+  such a comparison with `None` raises).  Unbounded in nesting depth, chain length, database size.
+  (`C07_the_partial`: the same for `the(...)`.)
 * `C07_rejects`, `C07_rejects_nested`, `C07_rejects_query` — every constructor outside the dispatch is an
   `EQLTranslationError`, wherever it occurs in an and_/or_ tree it prevents acceptance.
-* counter-examples (by `decide`, concrete witnesses = the recorded findings): `C07_cex_two_variables` (F-C07-1),
-  `C07_cex_null_ne`, `C07_cex_null_in` (F-C07-2), `C07_cex_set_of_escapes` (F-C07-3), `C07_cex_eq_join_under_or`
-  (F-C07-4).
+* counter-examples (by `decide`, concrete witnesses = the recorded findings), all restated for the repaired code so that
+  they show the former behaviour on the primitive it came from and the present agreement of both worlds:
+  `C07_cex_two_variables` (F-C07-1: the condition with its columns `conflate`d), `C07_cex_null_ne`, `C07_cex_null_in`
+  (F-C07-2: `sqlCmpLegacy`, `sqlInLegacy`), `C07_cex_set_of_escapes` (F-C07-3: `Fail.escape`), `C07_cex_eq_join_under_or`
+  (F-C07-4: `legacyJoinUnderOr`), `C07_cex_like_substring` (F-C07-5: `sqlLike`).
+Not proved (left to the correspondence): queries with more than one variable (their translation — aliases, equality joins —
+is modelled and tested, incl. multiplicities), substring tests.
 -/
 namespace KrroodVerif.SqlTr
 
@@ -35,9 +41,29 @@ def Frag : Expr → Prop
   | .attr c => c.var = 0
   | _ => False
 
-/-- on every candidate row every compared chain evaluates to a number (so: no NULL hop, no NULL compared column) -/
+/-- a scalar attribute value: `None`/NULL or a number -/
+def Scalar (v : Val) : Prop := v = .null ∨ ∃ n, v = .num n
+
+/-- the ordering comparators: in memory they raise TypeError on `None` -/
+def isOrd : Cmp → Bool
+  | .eq | .ne => false
+  | _ => true
+
+/-- the chains that occur in an ordering comparison -/
+def ordChains : Expr → List Chain
+  | .and l r | .or l r => ordChains l ++ ordChains r
+  | .cmp op l r =>
+    if isOrd op then
+      (match l with | .chain c => [c] | _ => []) ++ (match r with | .chain c => [c] | _ => [])
+    else []
+  | _ => []
+
+/-- on every candidate row every compared chain evaluates (no NULL relationship hop) to a scalar — NULL IS ALLOWED on
+the compared column for `==`, `!=`, `in_` and truthiness (since the fix for F-C07-2) — and to a number where it is
+compared by `< <= > >=` (in memory an ordering comparison with `None` raises TypeError). -/
 def Good (db : DB) (roots : List Nat) (e : Expr) : Prop :=
-  ∀ r ∈ roots, ∀ c ∈ exprChains e, ∃ n, chainVal db [r] c = some (.num n)
+  (∀ r ∈ roots, ∀ c ∈ exprChains e, ∃ v, chainVal db [r] c = some v ∧ Scalar v) ∧
+  (∀ r ∈ roots, ∀ c ∈ ordChains e, ∃ n, chainVal db [r] c = some (.num n))
 
 /-! ## Lemmas -/
 
@@ -64,7 +90,7 @@ theorem dropLast_cons_cons {α} (a b : α) (l : List α) : (a :: b :: l).dropLas
 theorem getLast?_cons_cons {α} (a b : α) (l : List α) : (a :: b :: l).getLast? = (b :: l).getLast? := by
   simp [List.getLast?_cons_cons]
 
-theorem mem_addJoin {st : St} {j j' : Join} {t : Cls} (h : j' ∈ (addJoin st j t).joins) :
+theorem mem_addJoin {st : St} {j j' : Join} (h : j' ∈ (addJoin st j).joins) :
     j' ∈ st.joins ∨ j' = j := by
   unfold addJoin at h
   split at h
@@ -72,15 +98,15 @@ theorem mem_addJoin {st : St} {j j' : Join} {t : Cls} (h : j' ∈ (addJoin st j 
   · simp only [List.mem_append, List.mem_singleton] at h
     exact h
 
-theorem addJoin_eqJoins (st : St) (j : Join) (t : Cls) : (addJoin st j t).eqJoins = st.eqJoins := by
+theorem addJoin_eqJoins (st : St) (j : Join) : (addJoin st j).eqJoins = st.eqJoins := by
   unfold addJoin; split <;> rfl
 
 /-- what a successful chain walk returns: the column of the alias reached by all hops but the last, the equality
 joins untouched, and every new aliased join is a prefix of the walked hops. -/
-theorem walk_spec (S : Schema) (base : Cls) : ∀ (rest : List Attr) (cur : Cls) (acc : List Attr) (st : St)
-    (col : ColRef) (st' : St), walk S base cur acc rest st = .ok (col, st') →
-    (∃ a, rest.getLast? = some a ∧ col = ⟨acc ++ rest.dropLast, a⟩) ∧ st'.eqJoins = st.eqJoins ∧
-    (∀ j ∈ st'.joins, j ∈ st.joins ∨ ∃ suf, acc ++ rest.dropLast = j.path ++ suf) := by
+theorem walk_spec (S : Schema) (var : Nat) : ∀ (rest : List Attr) (cur : Cls) (acc : List Attr) (st : St)
+    (col : ColRef) (st' : St), walk S var cur acc rest st = .ok (col, st') →
+    (∃ a, rest.getLast? = some a ∧ col = ⟨var, acc ++ rest.dropLast, a⟩) ∧ st'.eqJoins = st.eqJoins ∧
+    (∀ j ∈ st'.joins, j ∈ st.joins ∨ (j.var = var ∧ ∃ suf, acc ++ rest.dropLast = j.path ++ suf)) := by
   intro rest
   induction rest with
   | nil => intro cur acc st col st' h; simp [walk] at h
@@ -110,19 +136,19 @@ theorem walk_spec (S : Schema) (base : Cls) : ∀ (rest : List Attr) (cur : Cls)
         · rw [hx2, dropLast_cons_cons]; simp
         · rw [he, addJoin_eqJoins]
         · intro j hjm
-          rcases hj j hjm with hj' | ⟨suf, hsuf⟩
+          rcases hj j hjm with hj' | ⟨hv, suf, hsuf⟩
           · rcases mem_addJoin hj' with h1 | h1
             · exact Or.inl h1
             · right
               subst h1
-              exact ⟨(b :: rest).dropLast, by rw [dropLast_cons_cons]; simp⟩
+              exact ⟨rfl, (b :: rest).dropLast, by rw [dropLast_cons_cons]; simp⟩
           · right
-            exact ⟨suf, by rw [dropLast_cons_cons, ← hsuf]; simp⟩
+            exact ⟨hv, suf, by rw [dropLast_cons_cons, ← hsuf]; simp⟩
       · simp at h
 
 /-- every aliased join of the state finds its partner for every candidate row -/
 def JoinsNav (db : DB) (roots : List Nat) (st : St) : Prop :=
-  ∀ j ∈ st.joins, ∀ r ∈ roots, (navObj db r j.path).isSome
+  ∀ j ∈ st.joins, j.var = 0 ∧ ∀ r ∈ roots, (navObj db r j.path).isSome
 
 theorem chainVal_zero (db : DB) (r : Nat) (c : Chain) (h0 : c.var = 0) (v : Val)
     (h : chainVal db [r] c = some v) :
@@ -136,23 +162,26 @@ theorem chainVal_zero (db : DB) (r : Nat) (c : Chain) (h0 : c.var = 0) (v : Val)
 
 /-- translating a chain of the selected variable -/
 theorem trChain_spec (S : Schema) (sel : Cls) (db : DB) (roots : List Nat) (c : Chain) (st : St) (col : ColRef)
-    (st' : St) (h0 : c.var = 0) (hg : ∀ r ∈ roots, ∃ n, chainVal db [r] c = some (.num n))
+    (st' : St) (h0 : c.var = 0) (hg : ∀ r ∈ roots, ∃ v, chainVal db [r] c = some v)
     (hinv : JoinsNav db roots st) (h : trChain S [sel] c st = .ok (col, st')) :
     JoinsNav db roots st' ∧ st'.eqJoins = st.eqJoins ∧
-    ∀ r ∈ roots, colVal db r col.hops col.col = chainVal db [r] c := by
+    ∀ r ∈ roots, sqlColVal db [r] col = chainVal db [r] c := by
   unfold trChain at h
   rw [h0] at h
   simp only [List.getElem?_cons_zero] at h
   split at h
   · simp at h
-  · simp only [↓reduceIte] at h
-    obtain ⟨⟨a, ha1, ha2⟩, he, hj⟩ := walk_spec S sel c.path sel [] st col st' h
+  · have hms : markSeen st 0 = st := by simp [markSeen]
+    rw [hms] at h
+    obtain ⟨⟨a, ha1, ha2⟩, he, hj⟩ := walk_spec S 0 c.path sel [] st col st' h
     simp only [List.nil_append] at ha2 hj
     refine ⟨?_, he, ?_⟩
-    · intro j hjm r hr
-      rcases hj j hjm with h1 | ⟨suf, hsuf⟩
-      · exact hinv j h1 r hr
-      · obtain ⟨n, hn⟩ := hg r hr
+    · intro j hjm
+      rcases hj j hjm with h1 | ⟨hv0, suf, hsuf⟩
+      · exact hinv j h1
+      · refine ⟨hv0, ?_⟩
+        intro r hr
+        obtain ⟨n, hn⟩ := hg r hr
         obtain ⟨a', ha', hv⟩ := chainVal_zero db r c h0 _ hn
         apply navObj_prefix_isSome db j.path suf r
         rw [← hsuf]
@@ -166,7 +195,7 @@ theorem trChain_spec (S : Schema) (sel : Cls) (db : DB) (roots : List Nat) (c : 
       rw [ha1] at ha'
       cases ha'
       rw [hn, ha2]
-      exact hv
+      simpa [sqlColVal] using hv
 
 theorem and3_true (x y : Option Bool) : and3 x y = some true ↔ x = some true ∧ y = some true := by
   cases x with
@@ -186,61 +215,134 @@ theorem or3_true (x y : Option Bool) : or3 x y = some true ↔ x = some true ∨
     | none => simp [or3]
     | some b => cases b <;> simp [or3])
 
-theorem sqlCmpVal_num (op : Cmp) (a b : Int) : sqlCmpVal op (.num a) (.num b) = some (cmpInt op a b) := rfl
+theorem num_beq (a b : Int) : (Val.num a == Val.num b) = (a == b) := by
+  by_cases h : a = b
+  · subst h; simp
+  · have hne : Val.num a ≠ Val.num b := fun hh => by cases hh; exact h rfl
+    rw [beq_eq_false_iff_ne.mpr hne, beq_eq_false_iff_ne.mpr h]
 
-theorem pyCmp_num (op : Cmp) (a b : Int) : pyCmp op (.num a) (.num b) = some (cmpInt op a b) := by
-  have hne : a ≠ b → Val.num a ≠ Val.num b := fun h hh => by cases hh; exact h rfl
-  cases op <;> simp only [pyCmp, cmpInt]
-  · by_cases h : a = b
-    · simp [h]
-    · rw [beq_eq_false_iff_ne.mpr (hne h), beq_eq_false_iff_ne.mpr h]
-  · by_cases h : a = b
-    · simp [h]
-    · simp only [bne, beq_eq_false_iff_ne.mpr (hne h), beq_eq_false_iff_ne.mpr h]
+theorem null_beq_num (a : Int) : (Val.null == Val.num a) = false :=
+  beq_eq_false_iff_ne.mpr (fun h => by cases h)
+theorem num_beq_null (a : Int) : (Val.num a == Val.null) = false :=
+  beq_eq_false_iff_ne.mpr (fun h => by cases h)
+theorem null_beq_null : (Val.null == Val.null) = true := by decide
 
-theorem sqlIn_num (n : Int) (vs : List (Option Int)) :
-    (sqlIn (.num n) vs = some true) ↔ (vs.any fun v => litVal v == Val.num n) = true := by
-  unfold sqlIn
-  have key : (vs.any fun v => litVal v == Val.num n) = vs.contains (some n) := by
-    induction vs with
-    | nil => simp
-    | cons v vs ih =>
-      simp only [List.any_cons, ih, List.contains_cons]
-      cases v with
-      | none => simp [litVal]
-      | some m =>
-        simp only [litVal]
-        congr 1
-        by_cases hm : m = n
-        · subst hm; simp
-        · have h1 : (Val.num m == Val.num n) = false := by simp [hm]
-          have h2 : (some n == some m) = false := by
-            simp only [beq_eq_false_iff_ne, ne_eq, Option.some.injEq]
-            exact fun h => hm h.symm
-          rw [h1, h2]
-  rw [key]
-  cases hvs : vs with
-  | nil => simp
-  | cons v vs' =>
-    simp only [List.isEmpty_cons, Bool.false_eq_true, ↓reduceIte]
-    split
-    · simp_all
-    · split <;> simp_all
+theorem litVal_scalar (m : Option Int) : Scalar (litVal m) := by
+  cases m with
+  | none => exact Or.inl rfl
+  | some n => exact Or.inr ⟨n, rfl⟩
 
-/-- the heart: on the fragment, for every candidate row, the translated condition is TRUE under SQL three-valued logic
-exactly when in-memory evaluation (which does not raise) says True; joins added never drop a candidate. -/
+/-- column ⋄ column: Python's comparison of two scalars and the NULL-safe SQL rendering agree (ordering only on numbers) -/
+theorem cmp_col_col (op : Cmp) (c d : ColRef) (v w : Val) (hv : Scalar v) (hw : Scalar w)
+    (hord : isOrd op = true → (∃ n, v = .num n) ∧ (∃ n, w = .num n)) :
+    ∃ b, pyCmp op v w = some b ∧ (sqlCmpV op (.col c) (.col d) v w = some true ↔ b = true) := by
+  cases op
+  case eq => exact ⟨v == w, by simp [pyCmp], by simp [sqlCmpV]⟩
+  case ne => exact ⟨v != w, by simp [pyCmp], by simp [sqlCmpV]⟩
+  all_goals
+    obtain ⟨⟨n, rfl⟩, ⟨m, rfl⟩⟩ := hord rfl
+    exact ⟨_, rfl, by simp [sqlCmpV, sqlCmpVal]⟩
+
+/-- column ⋄ literal -/
+theorem cmp_col_lit (op : Cmp) (c : ColRef) (v : Val) (m : Option Int) (hv : Scalar v)
+    (hord : isOrd op = true → ∃ n, v = .num n) (hm : m = none → op = .eq ∨ op = .ne) :
+    ∃ b, pyCmp op v (litVal m) = some b ∧ (sqlCmpV op (.col c) (.lit m) v (litVal m) = some true ↔ b = true) := by
+  cases m with
+  | none =>
+    rcases hm rfl with rfl | rfl
+    · exact ⟨v == .null, by simp [pyCmp, litVal], by simp [sqlCmpV, litVal]⟩
+    · exact ⟨v != .null, by simp [pyCmp, litVal], by simp [sqlCmpV, litVal]⟩
+  | some k =>
+    cases op
+    case ne => exact ⟨v != .num k, by simp [pyCmp, litVal], by simp [sqlCmpV, litVal]⟩
+    case eq =>
+      rcases hv with rfl | ⟨n, rfl⟩
+      · exact ⟨false, by simp [pyCmp, litVal, null_beq_num], by simp [sqlCmpV, litVal, sqlCmpVal]⟩
+      · exact ⟨n == k, by simp [pyCmp, litVal, num_beq], by simp [sqlCmpV, litVal, sqlCmpVal, cmpInt]⟩
+    all_goals
+      obtain ⟨n, rfl⟩ := hord rfl
+      exact ⟨_, rfl, by simp [sqlCmpV, litVal, sqlCmpVal]⟩
+
+/-- literal ⋄ column -/
+theorem cmp_lit_col (op : Cmp) (c : ColRef) (v : Val) (m : Option Int) (hv : Scalar v)
+    (hord : isOrd op = true → ∃ n, v = .num n) (hm : m = none → op = .eq ∨ op = .ne) :
+    ∃ b, pyCmp op (litVal m) v = some b ∧ (sqlCmpV op (.lit m) (.col c) (litVal m) v = some true ↔ b = true) := by
+  cases m with
+  | none =>
+    rcases hm rfl with rfl | rfl
+    · refine ⟨Val.null == v, by simp [pyCmp, litVal], ?_⟩
+      rcases hv with rfl | ⟨n, rfl⟩ <;> simp [sqlCmpV, litVal, null_beq_num, num_beq_null]
+    · refine ⟨Val.null != v, by simp [pyCmp, litVal], ?_⟩
+      rcases hv with rfl | ⟨n, rfl⟩ <;> simp [sqlCmpV, litVal, bne, null_beq_num, num_beq_null]
+  | some k =>
+    cases op
+    case ne => exact ⟨Val.num k != v, by simp [pyCmp, litVal], by simp [sqlCmpV, litVal]⟩
+    case eq =>
+      rcases hv with rfl | ⟨n, rfl⟩
+      · exact ⟨false, by simp [pyCmp, litVal, num_beq_null], by simp [sqlCmpV, litVal, sqlCmpVal]⟩
+      · exact ⟨k == n, by simp [pyCmp, litVal, num_beq], by simp [sqlCmpV, litVal, sqlCmpVal, cmpInt]⟩
+    all_goals
+      obtain ⟨n, rfl⟩ := hord rfl
+      exact ⟨_, rfl, by simp [sqlCmpV, litVal, sqlCmpVal]⟩
+
+/-- membership: `null_safe_in` is TRUE exactly when Python's `in` is -/
+theorem sqlIn_scalar (v : Val) (vs : List (Option Int)) (hv : Scalar v) :
+    (sqlIn v vs = some true) ↔ (vs.any fun w => litVal w == v) = true := by
+  rcases hv with rfl | ⟨n, rfl⟩
+  · have key : (vs.any fun w => litVal w == Val.null) = vs.contains none := by
+      induction vs with
+      | nil => simp
+      | cons w vs ih =>
+        simp only [List.any_cons, ih, List.contains_cons]
+        cases w with
+        | none => simp [litVal]
+        | some m => simp [litVal, num_beq_null]
+    rw [key]
+    unfold sqlIn
+    by_cases hc : vs.contains none = true
+    · simp [hc]
+    · simp only [hc, Bool.false_eq_true, ↓reduceIte, iff_false]
+      split <;> simp
+  · have key : (vs.any fun w => litVal w == Val.num n) = vs.contains (some n) := by
+      induction vs with
+      | nil => simp
+      | cons w vs ih =>
+        simp only [List.any_cons, ih, List.contains_cons]
+        cases w with
+        | none => simp [litVal, null_beq_num]
+        | some m =>
+          simp only [litVal, num_beq]
+          congr 1
+          by_cases hm : m = n
+          · subst hm; simp
+          · have h2 : (some n == some m) = false := by
+              simp only [beq_eq_false_iff_ne, ne_eq, Option.some.injEq]
+              exact fun h => hm h.symm
+            rw [beq_eq_false_iff_ne.mpr hm, h2]
+    rw [key]
+    simp [sqlIn]
+
+theorem good_and_left {db : DB} {roots : List Nat} {l r : Expr} (hg : Good db roots (.and l r)) : Good db roots l :=
+  ⟨fun x hx c hc => hg.1 x hx c (by simp [exprChains, hc]), fun x hx c hc => hg.2 x hx c (by simp [ordChains, hc])⟩
+theorem good_and_right {db : DB} {roots : List Nat} {l r : Expr} (hg : Good db roots (.and l r)) : Good db roots r :=
+  ⟨fun x hx c hc => hg.1 x hx c (by simp [exprChains, hc]), fun x hx c hc => hg.2 x hx c (by simp [ordChains, hc])⟩
+theorem good_or_left {db : DB} {roots : List Nat} {l r : Expr} (hg : Good db roots (.or l r)) : Good db roots l :=
+  ⟨fun x hx c hc => hg.1 x hx c (by simp [exprChains, hc]), fun x hx c hc => hg.2 x hx c (by simp [ordChains, hc])⟩
+theorem good_or_right {db : DB} {roots : List Nat} {l r : Expr} (hg : Good db roots (.or l r)) : Good db roots r :=
+  ⟨fun x hx c hc => hg.1 x hx c (by simp [exprChains, hc]), fun x hx c hc => hg.2 x hx c (by simp [ordChains, hc])⟩
+
+/-- the heart: on the fragment, for every candidate row, the translated condition is TRUE under SQL's logic exactly when
+in-memory evaluation (which does not raise) says True; joins added never drop a candidate. -/
 theorem tr_frag (S : Schema) (sel : Cls) (db : DB) (roots : List Nat) : ∀ (e : Expr) (uo : Bool) (st : St)
     (p : Option SqlCond) (st' : St), Frag e → Good db roots e → JoinsNav db roots st →
     tr S [sel] uo e st = .ok (p, st') →
     JoinsNav db roots st' ∧ st'.eqJoins = st.eqJoins ∧
-    ∃ c, p = some c ∧ ∀ r ∈ roots, ∃ b, evalCond db [r] e = some b ∧ (evalSql db r c = some true ↔ b = true) := by
+    ∃ c, p = some c ∧ ∀ r ∈ roots, ∃ b, evalCond db [r] e = some b ∧ (evalSql db [r] c = some true ↔ b = true) := by
   intro e
   induction e with
   | and l r ihl ihr =>
     intro uo st p st' hf hg hinv h
     obtain ⟨hfl, hfr⟩ := hf
-    have hgl : Good db roots l := fun x hx c hc => hg x hx c (by simp [exprChains, hc])
-    have hgr : Good db roots r := fun x hx c hc => hg x hx c (by simp [exprChains, hc])
     simp only [tr] at h
     split at h
     · simp at h
@@ -251,8 +353,8 @@ theorem tr_frag (S : Schema) (sel : Cls) (db : DB) (roots : List Nat) : ∀ (e :
         simp only [Except.ok.injEq, Prod.mk.injEq] at h
         obtain ⟨hp, hst⟩ := h
         subst hst
-        obtain ⟨i1, e1, cl, hcl, hl⟩ := ihl uo st pl st1 hfl hgl hinv h1
-        obtain ⟨i2, e2, cr, hcr, hr⟩ := ihr uo st1 pr st2 hfr hgr i1 h2
+        obtain ⟨i1, e1, cl, hcl, hl⟩ := ihl uo st pl st1 hfl (good_and_left hg) hinv h1
+        obtain ⟨i2, e2, cr, hcr, hr⟩ := ihr uo st1 pr st2 hfr (good_and_right hg) i1 h2
         refine ⟨i2, by rw [e2, e1], .and cl cr, by rw [← hp, hcl, hcr]; rfl, ?_⟩
         intro x hx
         obtain ⟨bl, hbl, hbl'⟩ := hl x hx
@@ -264,8 +366,6 @@ theorem tr_frag (S : Schema) (sel : Cls) (db : DB) (roots : List Nat) : ∀ (e :
   | or l r ihl ihr =>
     intro uo st p st' hf hg hinv h
     obtain ⟨hfl, hfr⟩ := hf
-    have hgl : Good db roots l := fun x hx c hc => hg x hx c (by simp [exprChains, hc])
-    have hgr : Good db roots r := fun x hx c hc => hg x hx c (by simp [exprChains, hc])
     simp only [tr] at h
     split at h
     · simp at h
@@ -276,8 +376,8 @@ theorem tr_frag (S : Schema) (sel : Cls) (db : DB) (roots : List Nat) : ∀ (e :
         simp only [Except.ok.injEq, Prod.mk.injEq] at h
         obtain ⟨hp, hst⟩ := h
         subst hst
-        obtain ⟨i1, e1, cl, hcl, hl⟩ := ihl true st pl st1 hfl hgl hinv h1
-        obtain ⟨i2, e2, cr, hcr, hr⟩ := ihr true st1 pr st2 hfr hgr i1 h2
+        obtain ⟨i1, e1, cl, hcl, hl⟩ := ihl true st pl st1 hfl (good_or_left hg) hinv h1
+        obtain ⟨i2, e2, cr, hcr, hr⟩ := ihr true st1 pr st2 hfr (good_or_right hg) i1 h2
         refine ⟨i2, by rw [e2, e1], .or cl cr, by rw [← hp, hcl, hcr]; rfl, ?_⟩
         intro x hx
         obtain ⟨bl, hbl, hbl'⟩ := hl x hx
@@ -295,8 +395,8 @@ theorem tr_frag (S : Schema) (sel : Cls) (db : DB) (roots : List Nat) : ∀ (e :
       | other k => simp [Frag] at hf
       | lit v =>
         obtain ⟨h0, hv⟩ := hf
-        have hgc : ∀ x ∈ roots, ∃ n, chainVal db [x] c = some (.num n) :=
-          fun x hx => hg x hx c (by simp [exprChains])
+        have hgc : ∀ x ∈ roots, ∃ w, chainVal db [x] c = some w :=
+          fun x hx => by obtain ⟨w, hw, _⟩ := hg.1 x hx c (by simp [exprChains]); exact ⟨w, hw⟩
         have hj : eqJoinFor S [sel] uo op (.chain c) (.lit v) st = .fallthrough := by
           cases op <;> rfl
         simp only [tr, hj, trOrdinary, trOperand, Except.map] at h
@@ -314,34 +414,28 @@ theorem tr_frag (S : Schema) (sel : Cls) (db : DB) (roots : List Nat) : ∀ (e :
             obtain ⟨i1, e1, hval⟩ := trChain_spec S sel db roots c st col stc h0 hgc hinv hc
             refine ⟨i1, e1, _, hp.symm, ?_⟩
             intro x hx
-            obtain ⟨n, hn⟩ := hgc x hx
+            obtain ⟨w, hw, hsc⟩ := hg.1 x hx c (by simp [exprChains])
             have hcv := hval x hx
-            rw [hn] at hcv
-            cases v with
-            | some m =>
-              refine ⟨cmpInt op n m, ?_, ?_⟩
-              · simp [evalCond, operandVal, hn, litVal, pyCmp_num]
-              · have : sqlCmp db x op (.col col) (.lit (some m)) = some (cmpInt op n m) := by
-                  cases op <;> simp [sqlCmp, sqlOperandVal, hcv, litVal, sqlCmpVal]
-                simp [evalSql, this]
-            | none =>
-              rcases hv rfl with ho | ho <;> subst ho
-              · refine ⟨false, ?_, ?_⟩
-                · simp [evalCond, operandVal, hn, litVal, pyCmp]
-                · simp [evalSql, sqlCmp, sqlOperandVal, hcv]
-              · refine ⟨true, ?_, ?_⟩
-                · simp [evalCond, operandVal, hn, litVal, pyCmp]
-                · simp [evalSql, sqlCmp, sqlOperandVal, hcv]
+            rw [hw] at hcv
+            have hord : isOrd op = true → ∃ n, w = .num n := fun ho => by
+              obtain ⟨n, hn⟩ := hg.2 x hx c (by simp [ordChains, ho])
+              rw [hw] at hn
+              exact ⟨n, Option.some.inj hn⟩
+            obtain ⟨b, hb1, hb2⟩ := cmp_col_lit op col w v hsc hord hv
+            refine ⟨b, ?_, ?_⟩
+            · simp [evalCond, operandVal, hw, hb1]
+            · simp only [evalSql, sqlCmp, sqlOperandVal, hcv, Option.getD_some]
+              exact hb2
       | chain d =>
         obtain ⟨h0, h0d⟩ := hf
-        have hgc : ∀ x ∈ roots, ∃ n, chainVal db [x] c = some (.num n) :=
-          fun x hx => hg x hx c (by simp [exprChains])
-        have hgd : ∀ x ∈ roots, ∃ n, chainVal db [x] d = some (.num n) :=
-          fun x hx => hg x hx d (by simp [exprChains])
+        have hgc : ∀ x ∈ roots, ∃ w, chainVal db [x] c = some w :=
+          fun x hx => by obtain ⟨w, hw, _⟩ := hg.1 x hx c (by simp [exprChains]); exact ⟨w, hw⟩
+        have hgd : ∀ x ∈ roots, ∃ w, chainVal db [x] d = some w :=
+          fun x hx => by obtain ⟨w, hw, _⟩ := hg.1 x hx d (by simp [exprChains]); exact ⟨w, hw⟩
         have hj : eqJoinFor S [sel] uo op (.chain c) (.chain d) st = .fallthrough := by
-          have hj' : eqJoinAttempt S [sel] uo c d st = .fallthrough := by
+          have hj' : eqJoinAttempt S [sel] c d st = .fallthrough := by
             simp [eqJoinAttempt, h0, h0d]
-          cases op <;> first | rfl | exact hj'
+          cases op <;> first | rfl | (simp only [eqJoinFor, hj']; split <;> rfl)
         simp only [tr, hj, trOrdinary, trOperand, Except.map] at h
         split at h
         · simp at h
@@ -368,25 +462,31 @@ theorem tr_frag (S : Schema) (sel : Cls) (db : DB) (roots : List Nat) : ∀ (e :
                 obtain ⟨i2, e2, hval2⟩ := trChain_spec S sel db roots d stc col2 stc2 h0d hgd i1 hc2
                 refine ⟨i2, by rw [e2, e1], _, hp.symm, ?_⟩
                 intro x hx
-                obtain ⟨n, hn⟩ := hgc x hx
-                obtain ⟨m, hm⟩ := hgd x hx
+                obtain ⟨w1, hw1, hsc1⟩ := hg.1 x hx c (by simp [exprChains])
+                obtain ⟨w2, hw2, hsc2⟩ := hg.1 x hx d (by simp [exprChains])
                 have hcv1 := hval1 x hx
                 have hcv2 := hval2 x hx
-                rw [hn] at hcv1
-                rw [hm] at hcv2
-                refine ⟨cmpInt op n m, ?_, ?_⟩
-                · simp [evalCond, operandVal, hn, hm, pyCmp_num]
-                · have : sqlCmp db x op (.col col) (.col col2) = some (cmpInt op n m) := by
-                    cases op <;> simp [sqlCmp, sqlOperandVal, hcv1, hcv2, sqlCmpVal]
-                  simp [evalSql, this]
+                rw [hw1] at hcv1
+                rw [hw2] at hcv2
+                have hord : isOrd op = true → (∃ n, w1 = .num n) ∧ (∃ n, w2 = .num n) := fun ho => by
+                  obtain ⟨n, hn⟩ := hg.2 x hx c (by simp [ordChains, ho])
+                  obtain ⟨m, hm⟩ := hg.2 x hx d (by simp [ordChains, ho])
+                  rw [hw1] at hn
+                  rw [hw2] at hm
+                  exact ⟨⟨n, Option.some.inj hn⟩, ⟨m, Option.some.inj hm⟩⟩
+                obtain ⟨b, hb1, hb2⟩ := cmp_col_col op col col2 w1 w2 hsc1 hsc2 hord
+                refine ⟨b, ?_, ?_⟩
+                · simp [evalCond, operandVal, hw1, hw2, hb1]
+                · simp only [evalSql, sqlCmp, sqlOperandVal, hcv1, hcv2, Option.getD_some]
+                  exact hb2
     | lit v =>
       cases r with
       | other k => simp [Frag] at hf
       | lit w => simp [Frag] at hf
       | chain c =>
         obtain ⟨h0, hv⟩ := hf
-        have hgc : ∀ x ∈ roots, ∃ n, chainVal db [x] c = some (.num n) :=
-          fun x hx => hg x hx c (by simp [exprChains])
+        have hgc : ∀ x ∈ roots, ∃ w, chainVal db [x] c = some w :=
+          fun x hx => by obtain ⟨w, hw, _⟩ := hg.1 x hx c (by simp [exprChains]); exact ⟨w, hw⟩
         have hj : eqJoinFor S [sel] uo op (.lit v) (.chain c) st = .fallthrough := by
           cases op <;> rfl
         simp only [tr, hj, trOrdinary, trOperand, Except.map] at h
@@ -404,24 +504,18 @@ theorem tr_frag (S : Schema) (sel : Cls) (db : DB) (roots : List Nat) : ∀ (e :
             obtain ⟨i1, e1, hval⟩ := trChain_spec S sel db roots c st col stc h0 hgc hinv hc
             refine ⟨i1, e1, _, hp.symm, ?_⟩
             intro x hx
-            obtain ⟨n, hn⟩ := hgc x hx
+            obtain ⟨w, hw, hsc⟩ := hg.1 x hx c (by simp [exprChains])
             have hcv := hval x hx
-            rw [hn] at hcv
-            cases v with
-            | some m =>
-              refine ⟨cmpInt op m n, ?_, ?_⟩
-              · simp [evalCond, operandVal, hn, litVal, pyCmp_num]
-              · have : sqlCmp db x op (.lit (some m)) (.col col) = some (cmpInt op m n) := by
-                  cases op <;> simp [sqlCmp, sqlOperandVal, hcv, litVal, sqlCmpVal]
-                simp [evalSql, this]
-            | none =>
-              rcases hv rfl with ho | ho <;> subst ho
-              · refine ⟨false, ?_, ?_⟩
-                · simp [evalCond, operandVal, hn, litVal, pyCmp]
-                · simp [evalSql, sqlCmp, sqlOperandVal, hcv]
-              · refine ⟨true, ?_, ?_⟩
-                · simp [evalCond, operandVal, hn, litVal, pyCmp]
-                · simp [evalSql, sqlCmp, sqlOperandVal, hcv]
+            rw [hw] at hcv
+            have hord : isOrd op = true → ∃ n, w = .num n := fun ho => by
+              obtain ⟨n, hn⟩ := hg.2 x hx c (by simp [ordChains, ho])
+              rw [hw] at hn
+              exact ⟨n, Option.some.inj hn⟩
+            obtain ⟨b, hb1, hb2⟩ := cmp_lit_col op col w v hsc hord hv
+            refine ⟨b, ?_, ?_⟩
+            · simp [evalCond, operandVal, hw, hb1]
+            · simp only [evalSql, sqlCmp, sqlOperandVal, hcv, Option.getD_some]
+              exact hb2
   | isIn item vs =>
     intro uo st p st' hf hg hinv h
     cases item with
@@ -429,8 +523,8 @@ theorem tr_frag (S : Schema) (sel : Cls) (db : DB) (roots : List Nat) : ∀ (e :
     | lit v => simp [Frag] at hf
     | chain c =>
       have h0 : c.var = 0 := hf
-      have hgc : ∀ x ∈ roots, ∃ n, chainVal db [x] c = some (.num n) :=
-        fun x hx => hg x hx c (by simp [exprChains])
+      have hgc : ∀ x ∈ roots, ∃ w, chainVal db [x] c = some w :=
+        fun x hx => by obtain ⟨w, hw, _⟩ := hg.1 x hx c (by simp [exprChains]); exact ⟨w, hw⟩
       simp only [tr] at h
       split at h
       · simp at h
@@ -441,18 +535,18 @@ theorem tr_frag (S : Schema) (sel : Cls) (db : DB) (roots : List Nat) : ∀ (e :
         obtain ⟨i1, e1, hval⟩ := trChain_spec S sel db roots c st col stc h0 hgc hinv hc
         refine ⟨i1, e1, _, hp.symm, ?_⟩
         intro x hx
-        obtain ⟨n, hn⟩ := hgc x hx
+        obtain ⟨w, hw, hsc⟩ := hg.1 x hx c (by simp [exprChains])
         have hcv := hval x hx
-        rw [hn] at hcv
-        refine ⟨vs.any fun v => litVal v == Val.num n, ?_, ?_⟩
-        · simp [evalCond, operandVal, hn]
+        rw [hw] at hcv
+        refine ⟨vs.any fun u => litVal u == w, ?_, ?_⟩
+        · simp [evalCond, operandVal, hw]
         · simp only [evalSql, hcv, Option.getD_some]
-          exact sqlIn_num n vs
+          exact sqlIn_scalar w vs hsc
   | attr c =>
     intro uo st p st' hf hg hinv h
     have h0 : c.var = 0 := hf
-    have hgc : ∀ x ∈ roots, ∃ n, chainVal db [x] c = some (.num n) :=
-      fun x hx => hg x hx c (by simp [exprChains])
+    have hgc : ∀ x ∈ roots, ∃ w, chainVal db [x] c = some w :=
+      fun x hx => by obtain ⟨w, hw, _⟩ := hg.1 x hx c (by simp [exprChains]); exact ⟨w, hw⟩
     simp only [tr] at h
     split at h
     · simp at h
@@ -463,12 +557,12 @@ theorem tr_frag (S : Schema) (sel : Cls) (db : DB) (roots : List Nat) : ∀ (e :
       obtain ⟨i1, e1, hval⟩ := trChain_spec S sel db roots c st col stc h0 hgc hinv hc
       refine ⟨i1, e1, _, hp.symm, ?_⟩
       intro x hx
-      obtain ⟨n, hn⟩ := hgc x hx
+      obtain ⟨w, hw, hsc⟩ := hg.1 x hx c (by simp [exprChains])
       have hcv := hval x hx
-      rw [hn] at hcv
-      refine ⟨n != 0, ?_, ?_⟩
-      · simp [evalCond, hn, pyTruthy]
-      · simp [evalSql, hcv]
+      rw [hw] at hcv
+      refine ⟨pyTruthy w, ?_, ?_⟩
+      · simp [evalCond, hw]
+      · rcases hsc with rfl | ⟨n, rfl⟩ <;> simp [evalSql, hcv, pyTruthy]
   | substr tab a b => intro uo st p st' hf; simp [Frag] at hf
   | not e _ => intro uo st p st' hf; simp [Frag] at hf
   | exist v e _ => intro uo st p st' hf; simp [Frag] at hf
@@ -477,16 +571,15 @@ theorem tr_frag (S : Schema) (sel : Cls) (db : DB) (roots : List Nat) : ∀ (e :
   | bareVar v => intro uo st p st' hf; simp [Frag] at hf
   | bareLit b => intro uo st p st' hf; simp [Frag] at hf
 
-theorem select_eq (roots : List Nat) (f : Nat → Option Bool) (g k : Nat → Bool)
-    (hf : ∀ r ∈ roots, f r = some (g r)) (hk : ∀ r ∈ roots, k r = g r) :
-    ((roots.map fun r => (r, f r)).filter fun p => p.2 == some true).map (·.1) =
-      roots.flatMap fun r => if k r then [r] else [] := by
+theorem select_eq (roots : List Nat) (f : Nat → Option Bool) (g : Nat → Bool) (F : Nat → List Nat)
+    (hf : ∀ r ∈ roots, f r = some (g r)) (hF : ∀ r ∈ roots, F r = if g r then [r] else []) :
+    ((roots.map fun r => (r, f r)).filter fun p => p.2 == some true).map (·.1) = roots.flatMap F := by
   induction roots with
   | nil => simp
   | cons r rs ih =>
-    have ih' := ih (fun x hx => hf x (List.mem_cons_of_mem _ hx)) (fun x hx => hk x (List.mem_cons_of_mem _ hx))
+    have ih' := ih (fun x hx => hf x (List.mem_cons_of_mem _ hx)) (fun x hx => hF x (List.mem_cons_of_mem _ hx))
     simp only [List.map_cons, List.flatMap_cons, List.filter_cons, hf r (List.mem_cons_self ..),
-      hk r (List.mem_cons_self ..)]
+      hF r (List.mem_cons_self ..)]
     cases g r <;> simp [ih']
 
 /-! ## The property theorems -/
@@ -518,8 +611,8 @@ theorem C07_preserves_partial (S : Schema) (db : DB) (q : Query) (sel : Cls) (e 
         have hej' : st.eqJoins = [] := by rw [hej]
         unfold evalMem execSql
         rw [hv, hc]
-        simp only [List.getElem?_cons_zero, hej', List.foldl_nil, List.replicate_one]
-        have hsel : ∀ r ∈ rootsOf S db sel, memSelects S db q e r = some (evalSql db r c == some true) := by
+        simp only [List.getElem?_cons_zero, hej', List.all_nil, Bool.and_true, List.tail_cons, restEnvs]
+        have hsel : ∀ r ∈ rootsOf S db sel, memSelects S db q e r = some (evalSql db [r] c == some true) := by
           intro r hr
           obtain ⟨b, hb, hiff⟩ := hcond r hr
           unfold memSelects
@@ -528,14 +621,15 @@ theorem C07_preserves_partial (S : Schema) (db : DB) (q : Query) (sel : Cls) (e 
           cases b with
           | true => simp [hiff.mpr rfl]
           | false =>
-            have : evalSql db r c ≠ some true := fun h => by simpa using hiff.mp h
+            have : evalSql db [r] c ≠ some true := fun h => by simpa using hiff.mp h
             simp [this]
-        have hjo : ∀ r ∈ rootsOf S db sel, joinsOk db r st.joins = true := by
+        have hjo : ∀ r ∈ rootsOf S db sel, joinsOk db [r] st.joins = true := by
           intro r hr
           unfold joinsOk
           rw [List.all_eq_true]
           intro j hj
-          exact hjn j hj r hr
+          obtain ⟨hj0, hjr⟩ := hjn j hj
+          simpa [hj0] using hjr r hr
         generalize rootsOf S db sel = roots at hsel hjo
         have hnone : (List.map (fun r => (r, memSelects S db q e r)) roots).any (fun p => p.2.isNone) = false := by
           rw [List.any_eq_false]
@@ -544,8 +638,10 @@ theorem C07_preserves_partial (S : Schema) (db : DB) (q : Query) (sel : Cls) (e 
           obtain ⟨r, hr, rfl⟩ := hp
           simp [hsel r hr]
         simp only [hnone, Bool.false_eq_true, ↓reduceIte, Option.some.injEq]
-        exact select_eq roots _ (fun r => evalSql db r c == some true) _ hsel
-          (fun r hr => by simp [hjo r hr, whereTrue])
+        exact select_eq roots _ (fun r => evalSql db [r] c == some true) _ hsel
+          (fun r hr => by
+            simp only [List.filter_cons, List.filter_nil, hjo r hr, whereTrue, Bool.true_and]
+            cases evalSql db [r] c == some true <;> simp)
 
 /-- **C07_the_partial.**  On the same fragment `the(...)` fails in both worlds or in neither, with the same class
 (no row ↔ NoSolutionFound/NoResultFound, several ↔ MultipleSolutionFound/MultipleResultsFound), else the same entity. -/
@@ -649,12 +745,15 @@ def posDB : DB := [pos 1 2 3, pos 1 5 9, pos 2 2 2, pos 7 7 8]
 def qTwoVars : Query :=
   ⟨false, .entity, ["Position", "Position"], some (.cmp .gt (.chain ⟨0, ["x"]⟩) (.chain ⟨1, ["z"]⟩))⟩
 
-/-- **C07_cex_two_variables** (F-C07-1).  The translator accepts `p.x > q.z`, resolves both columns by class
-(`WHERE PositionDAO.x > PositionDAO.z`), and returns no row, while in memory `Position(7,7,8)` is selected. -/
+/-- **C07_cex_two_variables** (F-C07-1, repaired by fix 544475f).  Before the fix both columns of `p.x > q.z` were
+resolved by class (`WHERE PositionDAO.x > PositionDAO.z`, i.e. the translated condition with every column `conflate`d onto
+the selected row): no candidate satisfies it, while in memory `Position(7,7,8)` is selected.  The repaired translator gives
+`q` its own alias (`seen = [1]`), and both worlds select row 3. -/
 theorem C07_cex_two_variables :
-    ∃ s, translate posSchema qTwoVars = .ok s ∧ trigByClass s = true ∧
-      toSet (execSql posSchema s posDB) = [] ∧ evalMem posSchema qTwoVars posDB = some [3] := by
-  refine ⟨_, rfl, ?_, ?_, ?_⟩ <;> decide
+    ∃ s c, translate posSchema qTwoVars = .ok s ∧ s.whr = some c ∧ s.seen = [1] ∧
+      ((rootsOf posSchema posDB "Position").filter fun r => evalSql posDB [r, r] c.conflate == some true) = [] ∧
+      toSet (execSql posSchema s posDB) = [3] ∧ evalMem posSchema qTwoVars posDB = some [3] := by
+  refine ⟨_, _, rfl, rfl, ?_, ?_, ?_, ?_⟩ <;> decide
 
 def oriSchema : Schema := [⟨"Orientation", none, ["x", "y", "z", "w"], []⟩]
 def ori (w : Option Int) : Obj := ⟨"Orientation", [("x", some 1), ("y", some 2), ("z", some 3), ("w", w)], []⟩
@@ -663,29 +762,43 @@ def oriDB : DB := [ori none, ori (some 1), ori (some 2)]
 /-- `an(entity(o, o.w != 1.0))` -/
 def qNullNe : Query := ⟨false, .entity, ["Orientation"], some (.cmp .ne (.chain ⟨0, ["w"]⟩) (.lit (some 1)))⟩
 
-/-- **C07_cex_null_ne** (F-C07-2).  `o.w != 1.0` over a row whose `w` is NULL: selected in memory (`None != 1.0`), not
-selected by SQL (`NULL != 1.0` is UNKNOWN). -/
+/-- **C07_cex_null_ne** (F-C07-2, repaired by fix 1eb4fe3).  `o.w != 1.0` over a row whose `w` is NULL is selected in
+memory (`None != 1.0`).  Before the fix the comparison was rendered `w != 1.0`, which is UNKNOWN on that row
+(`sqlCmpLegacy`), so SQL dropped it; the repaired translator renders `w IS DISTINCT FROM 1.0` and both worlds select the
+rows 0 and 2. -/
 theorem C07_cex_null_ne :
-    ∃ s, translate oriSchema qNullNe = .ok s ∧ trigNull oriSchema qNullNe oriDB = true ∧
-      toSet (execSql oriSchema s oriDB) = [2] ∧ evalMem oriSchema qNullNe oriDB = some [0, 2] := by
-  refine ⟨_, rfl, ?_, ?_, ?_⟩ <;> decide
+    (sqlCmpLegacy oriDB [0] .ne (.col ⟨0, [], "w"⟩) (.lit (some 1)) = none ∧ pyCmp .ne .null (.num 1) = some true ∧
+      trigNull oriSchema qNullNe oriDB = true) ∧
+    ∃ s, translate oriSchema qNullNe = .ok s ∧
+      execSql oriSchema s oriDB = [0, 2] ∧ evalMem oriSchema qNullNe oriDB = some [0, 2] := by
+  refine ⟨⟨?_, ?_, ?_⟩, _, rfl, ?_, ?_⟩ <;> decide
 
 /-- `an(entity(o, in_(o.w, [None, 2.0])))` -/
 def qNullIn : Query := ⟨false, .entity, ["Orientation"], some (.isIn (.chain ⟨0, ["w"]⟩) [none, some 2])⟩
 
-/-- **C07_cex_null_in** (F-C07-2).  `in_(o.w, [None, 2.0])`: `None in [None, 2.0]` is True in memory,
-`NULL IN (NULL, 2.0)` is UNKNOWN in SQL. -/
+/-- **C07_cex_null_in** (F-C07-2, repaired by fix 1eb4fe3).  `in_(o.w, [None, 2.0])`: `None in [None, 2.0]` is True in
+memory; before the fix `NULL IN (NULL, 2.0)` was UNKNOWN in SQL (`sqlInLegacy`); the repaired translator renders
+`w IN (2.0) OR w IS NULL` and both worlds select the rows 0 and 2. -/
 theorem C07_cex_null_in :
-    ∃ s, translate oriSchema qNullIn = .ok s ∧ trigNull oriSchema qNullIn oriDB = true ∧
-      toSet (execSql oriSchema s oriDB) = [2] ∧ evalMem oriSchema qNullIn oriDB = some [0, 2] := by
-  refine ⟨_, rfl, ?_, ?_, ?_⟩ <;> decide
+    (sqlInLegacy .null [none, some 2] = none ∧ ([none, some 2].any fun v => litVal v == Val.null) = true) ∧
+    ∃ s, translate oriSchema qNullIn = .ok s ∧
+      execSql oriSchema s oriDB = [0, 2] ∧ evalMem oriSchema qNullIn oriDB = some [0, 2] := by
+  refine ⟨⟨?_, ?_⟩, _, rfl, ?_, ?_⟩ <;> decide
 
 /-- `an(set_of([o], o.w == 1.0))` -/
 def qSetOf : Query := ⟨false, .setOf, ["Orientation"], some (.cmp .eq (.chain ⟨0, ["w"]⟩) (.lit (some 1)))⟩
 
-/-- **C07_cex_set_of_escapes** (F-C07-3).  `set_of` is not rejected with an `EQLTranslationError`: another exception
-escapes (today AttributeError: 'SetOf' object has no attribute 'selected_variable'). -/
-theorem C07_cex_set_of_escapes : translate oriSchema qSetOf = .error .escape := rfl
+/-- **C07_cex_set_of_escapes** (F-C07-3, repaired by fix c10063e).  Before the fix `set_of` was not rejected with an
+`EQLTranslationError`: AttributeError ('SetOf' object has no attribute 'selected_variable') escaped (`Fail.escape`, which
+the property forbids: `Fail.escape ≠ Fail.rejected _`).  The repaired translator raises `UnsupportedQueryTypeError`; so do
+an Index/Call/Flatten operand and an equality join of the selected class with itself. -/
+theorem C07_cex_set_of_escapes :
+    (∀ t, Fail.escape ≠ Fail.rejected t) ∧
+    translate oriSchema qSetOf = .error (.rejected .unsupportedQueryType) ∧
+    (∀ st, trOperand oriSchema ["Orientation"] (.other .index) st = .error (.rejected .unsupportedQueryType)) := by
+  refine ⟨?_, rfl, fun st => rfl⟩
+  intro t h
+  cases h
 
 def connSchema : Schema :=
   [⟨"Body", none, ["size"], []⟩,
@@ -697,19 +810,39 @@ def conn (c : Cls) (p ch : Nat) : Obj := ⟨c, [], [("parent", some p), ("child"
 /-- two bodies; a fixed connection 0→1; a revolute connection 0→1 (same parent as the fixed one) -/
 def connDB : DB := [body 1, body 2, conn "FixedConnection" 0 1, conn "RevoluteConnection" 1 0]
 
+/-- (a test) the equality join of the selected class with itself, `f.parent == g.child` with `f`, `g` both FixedConnection
+(before the fixes: InvalidRequestError at execution), is translated since `g` has its own alias: over `connDB2'` the
+fixed connection 0→1 is selected because another fixed connection has body 0 as its child — in both worlds. -/
+def connDB2' : DB := [body 1, body 2, conn "FixedConnection" 0 1, conn "FixedConnection" 1 0]
+example : ∃ s, translate connSchema ⟨false, .entity, ["FixedConnection", "FixedConnection"],
+      some (.cmp .eq (.chain ⟨0, ["parent"]⟩) (.chain ⟨1, ["child"]⟩))⟩ = .ok s ∧
+    s.eqJoins = [⟨1, "child", "parent"⟩] ∧ execSql connSchema s connDB2' = [2, 3] ∧
+    evalMem connSchema ⟨false, .entity, ["FixedConnection", "FixedConnection"],
+      some (.cmp .eq (.chain ⟨0, ["parent"]⟩) (.chain ⟨1, ["child"]⟩))⟩ connDB2' = some [2, 3] := by
+  refine ⟨_, rfl, ?_, ?_, ?_⟩ <;> decide
+
 /-- `an(entity(f, or_(f.parent == r.parent, f.parent.size == 1)))`, `f: FixedConnection`, `r: RevoluteConnection` -/
 def qJoinUnderOr : Query :=
   ⟨false, .entity, ["FixedConnection", "RevoluteConnection"],
    some (.or (.cmp .eq (.chain ⟨0, ["parent"]⟩) (.chain ⟨1, ["parent"]⟩))
              (.cmp .eq (.chain ⟨0, ["parent", "size"]⟩) (.lit (some 1))))⟩
 
-/-- **C07_cex_eq_join_under_or** (F-C07-4).  An attribute-equality comparison below `or_` is emitted as a global INNER
-JOIN: the fixed connection whose parent has size 1 satisfies the second disjunct in memory, but the JOIN finds no
-revolute connection with the same parent and SQL returns nothing. -/
+/-- the statement the translator produced for `qJoinUnderOr` BEFORE the fix: the equality below `or_` as a global INNER JOIN
+of the revolute connection, the other disjunct alone in WHERE -/
+def legacyJoinUnderOr : SqlQuery :=
+  ⟨"FixedConnection", ["FixedConnection", "RevoluteConnection"], [1], [⟨0, ["parent"]⟩], [⟨1, "parent", "parent"⟩],
+   some (.cmp .eq (.col ⟨0, ["parent"], "size"⟩) (.lit (some 1))), []⟩
+
+/-- **C07_cex_eq_join_under_or** (F-C07-4, repaired by fix 544475f).  Before the fix an attribute-equality comparison
+below `or_` was emitted as a global INNER JOIN (`legacyJoinUnderOr`): the fixed connection whose parent has size 1
+satisfies the second disjunct in memory, but the JOIN finds no revolute connection with the same parent and SQL returned
+nothing.  The repaired translator only JOINs outside `or_`; here the equality stays a comparison inside the OR (no
+equality join, the revolute connection's alias joined `ON true`) and both worlds select row 2. -/
 theorem C07_cex_eq_join_under_or :
-    ∃ s, translate connSchema qJoinUnderOr = .ok s ∧ trigEqJoin s = true ∧
-      toSet (execSql connSchema s connDB) = [] ∧ evalMem connSchema qJoinUnderOr connDB = some [2] := by
-  refine ⟨_, rfl, ?_, ?_, ?_⟩ <;> decide
+    execSql connSchema legacyJoinUnderOr connDB = [] ∧
+    ∃ s, translate connSchema qJoinUnderOr = .ok s ∧ s.eqJoins = [] ∧ s.seen = [1] ∧
+      toSet (execSql connSchema s connDB) = [2] ∧ evalMem connSchema qJoinUnderOr connDB = some [2] := by
+  refine ⟨?_, _, rfl, ?_, ?_, ?_, ?_⟩ <;> decide
 
 def nameSchema : Schema := [⟨"Body", none, ["name"], []⟩]
 /-- ranks: 1 ↦ "B", 2 ↦ "a_", 3 ↦ "ab", 4 ↦ "b" (code-point order) -/
@@ -753,19 +886,52 @@ def qPose : Query := ⟨false, .entity, ["Pose"], some poseExpr⟩
 
 example : Frag poseExpr := by simp [Frag, poseExpr]
 example : Good poseDB (rootsOf poseSchema poseDB "Pose") poseExpr := by
-  intro r hr c hc
-  have hr' : r = 2 ∨ r = 3 := by
-    have : rootsOf poseSchema poseDB "Pose" = [2, 3] := by decide
-    rw [this] at hr; simpa using hr
-  simp only [poseExpr, exprChains, List.cons_append, List.nil_append, List.mem_cons, List.not_mem_nil, or_false] at hc
-  rcases hr' with rfl | rfl <;> rcases hc with rfl | rfl | rfl
-  · exact ⟨1, by decide⟩
-  · exact ⟨2, by decide⟩
-  · exact ⟨3, by decide⟩
-  · exact ⟨4, by decide⟩
-  · exact ⟨5, by decide⟩
-  · exact ⟨6, by decide⟩
-example : ∃ s, translate poseSchema qPose = .ok s ∧ s.joins = [⟨"Pose", ["position"]⟩] ∧
+  have hroots : rootsOf poseSchema poseDB "Pose" = [2, 3] := by decide
+  rw [hroots]
+  constructor
+  · intro r hr c hc
+    have hr' : r = 2 ∨ r = 3 := by simpa using hr
+    simp only [poseExpr, exprChains, List.cons_append, List.nil_append, List.mem_cons, List.not_mem_nil, or_false] at hc
+    rcases hr' with rfl | rfl <;> rcases hc with rfl | rfl | rfl
+    · exact ⟨.num 1, by decide, Or.inr ⟨1, rfl⟩⟩
+    · exact ⟨.num 2, by decide, Or.inr ⟨2, rfl⟩⟩
+    · exact ⟨.num 3, by decide, Or.inr ⟨3, rfl⟩⟩
+    · exact ⟨.num 4, by decide, Or.inr ⟨4, rfl⟩⟩
+    · exact ⟨.num 5, by decide, Or.inr ⟨5, rfl⟩⟩
+    · exact ⟨.num 6, by decide, Or.inr ⟨6, rfl⟩⟩
+  · intro r hr c hc
+    have hr' : r = 2 ∨ r = 3 := by simpa using hr
+    simp only [poseExpr, ordChains, isOrd, ↓reduceIte, List.nil_append, List.append_nil,
+      List.mem_cons, List.not_mem_nil, or_false, Bool.false_eq_true] at hc
+    subst hc
+    rcases hr' with rfl | rfl
+    · exact ⟨1, by decide⟩
+    · exact ⟨4, by decide⟩
+
+/-- the hypotheses now admit NULL on the compared column: `or_(o.w != 1, in_(o.w, [None, 2]))` over orientations whose
+`w` is None, 1, 2 — `Good` holds, the translator accepts, and both worlds select the rows 0 and 2. -/
+def nullExpr : Expr := .or (.cmp .ne (.chain ⟨0, ["w"]⟩) (.lit (some 1))) (.isIn (.chain ⟨0, ["w"]⟩) [none, some 2])
+example : Frag nullExpr := by simp [Frag, nullExpr]
+example : Good oriDB (rootsOf oriSchema oriDB "Orientation") nullExpr := by
+  have hroots : rootsOf oriSchema oriDB "Orientation" = [0, 1, 2] := by decide
+  rw [hroots]
+  constructor
+  · intro r hr c hc
+    have hr' : r = 0 ∨ r = 1 ∨ r = 2 := by simpa using hr
+    simp only [nullExpr, exprChains, List.cons_append, List.nil_append, List.mem_cons, List.not_mem_nil, or_false,
+      or_self] at hc
+    subst hc
+    rcases hr' with rfl | rfl | rfl
+    · exact ⟨.null, by decide, Or.inl rfl⟩
+    · exact ⟨.num 1, by decide, Or.inr ⟨1, rfl⟩⟩
+    · exact ⟨.num 2, by decide, Or.inr ⟨2, rfl⟩⟩
+  · intro r hr c hc
+    simp [nullExpr, ordChains, isOrd] at hc
+example : ∃ s, translate oriSchema ⟨false, .entity, ["Orientation"], some nullExpr⟩ = .ok s ∧
+    execSql oriSchema s oriDB = [0, 2] ∧
+    evalMem oriSchema ⟨false, .entity, ["Orientation"], some nullExpr⟩ oriDB = some [0, 2] := by
+  refine ⟨_, rfl, ?_, ?_⟩ <;> decide
+example : ∃ s, translate poseSchema qPose = .ok s ∧ s.joins = [⟨0, ["position"]⟩] ∧
     execSql poseSchema s poseDB = [3] ∧ evalMem poseSchema qPose poseDB = some [3] := by
   refine ⟨_, rfl, ?_, ?_, ?_⟩ <;> decide
 /-- multiplicity (a test, by `decide`): a join between two variables has one solution per matching PAIR.  The fixed
